@@ -98,6 +98,23 @@ theorem LineEnd.terminated {b : Bytes} {n : Nat} (h : LineEnd b n) (hlt : n < b.
   · omega
   · exact e.1
 
+/-- The line that starts at a line end (inside the buffer) `Joins` what precedes it. -/
+theorem LineEnd.joins {b : Bytes} {n : Nat} (h : LineEnd b n) (hlt : n < b.length) (ln : Bytes)
+    (hh : ln.head? = (b.drop n).head?) : Joins (b.take n) ln := by
+  rcases h.2 with e | ⟨e1, e2⟩
+  · omega
+  · refine ⟨e1, ?_⟩
+    intro ⟨c1, c2⟩
+    exact e2 ⟨c1, by rw [← hh]; exact c2⟩
+
+theorem head?_take_drop (b : Bytes) (i ls : Nat) (h : ls < i) : ((b.take i).drop ls).head? = (b.drop ls).head? := by
+  rw [List.drop_take]
+  cases hd : b.drop ls with
+  | nil => simp
+  | cons a t =>
+    obtain ⟨m, hm⟩ : ∃ m, i - ls = m + 1 := ⟨i - ls - 1, by omega⟩
+    rw [hm]; rfl
+
 /-! ### A loop that delivers a root has fed a chain of lines -/
 
 section
@@ -117,12 +134,11 @@ theorem parseLines_feed : ∀ (f : Nat) (lp : L.σ) (ls : Nat) (p : BP), p.err.i
     intro lp ls p herr hile hnn hls hLEls hLEi hI hopen hnp hln r p' h
     have hnnl : NoNul ((p.buf.take p.i).drop ls) := (hnn.take _).drop _
     -- a non-empty line follows a terminated source
-    have hterm : IsLine ((p.buf.take p.i).drop ls) → terminated (p.buf.take ls) = true := by
+    have hterm : IsLine ((p.buf.take p.i).drop ls) → Joins (p.buf.take ls) ((p.buf.take p.i).drop ls) := by
       intro hl
-      apply hLEls.terminated
       have : 0 < ((p.buf.take p.i).drop ls).length := List.length_pos_iff.mpr hl.1
       simp only [List.length_drop, List.length_take] at this
-      omega
+      exact hLEls.joins (by omega) _ (head?_take_drop _ _ _ (by omega))
     have hsplit : p.buf.take p.i = p.buf.take ls ++ (p.buf.take p.i).drop ls := take_split hls
     have hlen : (p.buf.take ls).length = ls := by simp; omega
     have hleni : (p.buf.take p.i).length = p.i := by simp; omega
@@ -258,7 +274,7 @@ theorem Lock.readline {t : Bytes} {q : BP} (h : Lock t q) (hlt : q.i < q.buf.len
 def Pre {L : LineParserI} (S : Sess L) (lp : L.σ) (ls : Nat) (src : Bytes) : Prop :=
   (lp = L.new [] ∧ ls = 0 ∧ IsLine src ∧ isBlankLine src = false ∧ NoNul src) ∨
   (S.I (src.take ls) lp ∧ headOpen (L.kids lp) = true ∧ L.panicked lp = none ∧ ls ≤ src.length ∧ IsLine (src.drop ls) ∧
-    NoNul (src.drop ls) ∧ terminated (src.take ls) = true)
+    NoNul (src.drop ls) ∧ Joins (src.take ls) (src.drop ls))
 
 theorem Pre.after {L : LineParserI} {S : Sess L} {lp : L.σ} {ls : Nat} {src : Bytes} (h : Pre S lp ls src) :
     S.I src (L.line lp src ls) := by
@@ -361,7 +377,8 @@ theorem parseLines_reparse (CI : CloseIndep L S Good Good2 E) {t : Bytes} :
               · rw [drop_take_line]
                 exact isLine_take (by intro e; have := congrArg List.length e; simp at this; omega)
               · exact ((hnn.left).take _).drop _
-              · rw [List.take_take, Nat.min_eq_left (Nat.le_add_right _ _)]; exact hLE.terminated hlt
+              · rw [List.take_take, Nat.min_eq_left (Nat.le_add_right _ _)]
+                exact hLE.joins hlt _ (head?_take_drop _ _ _ (by omega))
             have hfuel : linesLeft q.buf (q.i + lineLen (q.buf.drop q.i)) + 2 ≤ fB := by
               have := linesLeft_step hlt; omega
             obtain ⟨k', h1, h2, h3, h4, h5⟩ := ih fB σ q.i { q with i := q.i + lineLen (q.buf.drop q.i) } hlock'
